@@ -1905,6 +1905,11 @@ func (ss *ServerSession) handle(ctx context.Context, req *jsonrpc.Request) (any,
 				Message: fmt.Sprintf("%q is not supported in the new protocol", req.Method),
 			}
 		}
+		// Only the lifecycle methods may be served before initialization.
+		if !initialized && req.Method != methodInitialize && req.Method != methodPing && req.Method != notificationInitialized {
+			ss.server.opts.Logger.Error("method invalid during initialization", "method", req.Method)
+			return nil, fmt.Errorf("method %q is invalid during session initialization", req.Method)
+		}
 	case methodDiscover:
 		// In case of methodDiscover call the state.initializeParams is populated
 		// within the discover handle function to make sure the method is supported
